@@ -1,6 +1,6 @@
-\* quick: 2 calls x 2 connections, 1 drop
+\* thorough: 3 calls x 2 connections, 1 drop (reduced interleaving RedSpec)
 CONSTANTS
-  Calls = {c1, c2}
+  Calls = {c1, c2, c3}
   NConns = 2
   Unknown = unk
   MaxDrops = 1
@@ -8,7 +8,7 @@ CONSTANTS
   MaxSilence = 0
   StrictRst = TRUE
   MaxBacklog = 3
-SPECIFICATION Spec
+SPECIFICATION RedSpec
 SYMMETRY Sym
 VIEW View
 CONSTRAINT Bounded
